@@ -18,12 +18,19 @@
      [ip4_name]                 a registered name whose text is a dotted quad: written like the
                                 IPv4 address, which carries four octets that the comparison sees
                                 (normalizing "//%31.2.3.4" produces one).
-   Outside these the text determines every component the comparison looks at. *)
+   Outside these the text determines every component the comparison looks at
+   ([same_text_identical_produced]), and the exclusion is exact: an object with one of the three
+   shapes is not equal to the object parsed from its own text ([not_faithful_unequal_reread],
+   [text_faithful_exact]).  "equal => same text" holds for every [produced_wf] object.
+
+   Part 3: the same for the objects reachable by a history of library calls (Model/History.v), through
+   [history_all_produced_wf]. *)
 From Coq Require Import ZArith Lia List Bool.
 From UP Require Import Base.Chars Base.Regex Model.Uri Model.Common Model.Compare Model.Parse Model.Recompose
   Spec.Identity Spec.NormalWf Spec.Split Spec.Unparse Spec.Reread
   Proofs.CompareProofs Proofs.ParseWf Proofs.ParseSplit Proofs.ParseAssemble
   Proofs.RereadWfb Proofs.RereadProofs Proofs.ParsedProduced.
+From UP Require Import Model.History Proofs.RereadAll.
 From UP Require Spec.Rfc3986.
 Import ListNotations.
 Local Open Scope N_scope.
@@ -284,4 +291,93 @@ Proof.
     exfalso. apply M. apply matchb_spec. exact Em.
   - destruct (absolutePath u), (pathSegs u) as [|[|c r] [|x l]]; try reflexivity;
       destruct Hp as [Hp _]; exfalso; apply Hp; reflexivity.
+Qed.
+
+(* ---------------------------------------------------------------- the three exceptions are exact:
+   an object that is not text faithful differs from the object read back from its own text *)
+
+(* the text is a function of the meaning *)
+Lemma host_wr_meaning u v : host_ok u -> host_ok v -> host_of u = host_of v ->
+  match hostText u, hostText v with
+  | Some h, Some h' => host_wr u h = host_wr v h'
+  | None, None => True
+  | _, _ => False
+  end.
+Proof.
+  unfold host_ok, host_of, host_wr, host_written, is_lit. intros Hu Hv E.
+  destruct (hostText u) as [hu|], (hostText v) as [hv|].
+  - destruct Hu as [_ Hu], Hv as [_ Hv].
+    destruct (ip4 u) as [ou|], (ip6 u) as [bu|], (ipFuture u) as [fu|]; try contradiction;
+      destruct (ip4 v) as [ov|], (ip6 v) as [bv|], (ipFuture v) as [fv|]; try contradiction;
+      cbn [is_some orb] in *; try discriminate E; injection E as <-; reflexivity.
+  - destruct (ip6 u); discriminate E.
+  - destruct (ip6 v); discriminate E.
+  - exact I.
+Qed.
+
+Lemma same_meaning_to_text u v : host_ok u -> host_ok v -> same_meaning u v -> to_text u = to_text v.
+Proof.
+  intros Hu Hv (Es & Eu & Eh & Ep & Epath & Eq & Ef).
+  rewrite (to_text_parts u Hu), (to_text_parts v Hv), Es, Epath, Eq, Ef. f_equal. f_equal.
+  pose proof (host_wr_meaning u v Hu Hv Eh) as W. unfold auth_text.
+  destruct (hostText u) as [h|], (hostText v) as [h'|]; try contradiction; [|reflexivity].
+  rewrite Eu, Ep, W. reflexivity.
+Qed.
+
+Lemma identical_text_faithful u w : host_ok u -> host_ok w -> components_identical u w ->
+  text_faithful u = text_faithful w.
+Proof.
+  intros Hu Hw [_ _ E4 E6 EF EH _ Ea Eg _ _].
+  unfold text_faithful, rootless_leading_empty, lone_empty_hostless, ip4_name.
+  rewrite (host_set_ok u Hu), (host_set_ok w Hw), <- Ea, <- Eg, <- E4, <- E6, <- EF.
+  unfold host_ok, has_ip_data in *. rewrite <- E4, <- E6, <- EF in *.
+  destruct (ip4 u) as [o|], (ip6 u) as [b|], (ipFuture u) as [f|]; cbn [is_some orb] in *;
+    try (rewrite (EH eq_refl eq_refl); reflexivity);
+    (destruct (hostText u) as [h|]; [|destruct Hu as (Hu1 & Hu2 & Hu3); discriminate]);
+    (destruct (hostText w) as [h'|]; [|destruct Hw as (Hw1 & Hw2 & Hw3); discriminate]); reflexivity.
+Qed.
+
+Theorem not_faithful_unequal_reread u : produced_wf u -> text_faithful u = false ->
+  exists w, parse (to_text u) = POk w /\ to_text w = to_text u /\ equals_uri (Some u) (Some w) = false.
+Proof.
+  intros W F. destruct (produced_reread u W) as (w & Pw & M). exists w.
+  pose proof W as (_ & _ & Hu & _). pose proof (parsed_host_ok _ w Pw) as Hw.
+  split; [exact Pw|]. split; [symmetry; exact (same_meaning_to_text u w Hu Hw M)|].
+  destruct (equals_uri (Some u) (Some w)) eqn:E; [|reflexivity]. exfalso.
+  apply (equal_iff_identical_produced u w W) in E.
+  rewrite (identical_text_faithful u w Hu Hw E), (parsed_text_faithful _ w Pw) in F. discriminate F.
+Qed.
+
+(* for an object satisfying produced_wf: text faithful exactly when it is equal to every parsed
+   object that has its text *)
+Theorem text_faithful_exact u : produced_wf u ->
+  (text_faithful u = true <->
+   forall s v, parse s = POk v -> to_text v = to_text u -> equals_uri (Some u) (Some v) = true).
+Proof.
+  intros W. split.
+  - intros F s v P T.
+    apply (equal_iff_same_text_produced u v W (parsed_produced_wf s v P) F (parsed_text_faithful s v P)).
+    symmetry. exact T.
+  - intros H. destruct (text_faithful u) eqn:F; [reflexivity|]. exfalso.
+    destruct (not_faithful_unequal_reread u W F) as (w & Pw & Tw & E).
+    rewrite (H _ w Pw Tw) in E. discriminate E.
+Qed.
+
+(* ================================================================ 3. objects reachable through the library
+   (histories of parse / resolve / create-reference / normalize / make-owner steps, Model/History.v;
+   the side condition on normalization steps is the one of C07: outside the defect shape D7b) *)
+Theorem equal_same_text_reachable ops i u v :
+  normalize_steps_ok norm_outside_findings empty_store ops -> run empty_store ops i = Some u ->
+  equals_uri (Some u) (Some v) = true -> to_text u = to_text v.
+Proof. intros Hok Hu. exact (equal_same_text_produced u v (history_all_produced_wf ops Hok i u Hu)). Qed.
+
+Theorem equal_iff_same_text_reachable ops ops' i j u v :
+  normalize_steps_ok norm_outside_findings empty_store ops -> run empty_store ops i = Some u ->
+  normalize_steps_ok norm_outside_findings empty_store ops' -> run empty_store ops' j = Some v ->
+  text_faithful u = true -> text_faithful v = true ->
+  (equals_uri (Some u) (Some v) = true <-> to_text u = to_text v).
+Proof.
+  intros Hok Hu Hok' Hv. apply equal_iff_same_text_produced.
+  - exact (history_all_produced_wf ops Hok i u Hu).
+  - exact (history_all_produced_wf ops' Hok' j v Hv).
 Qed.
